@@ -70,6 +70,7 @@ def post_state(w, K):
     d['cas_id'] = w.cas_id()
     u = w.usage()
     d['usage'] = u if u is not None else w.st.usage
+    d['extra'] = w.extras()
     return d
 
 
@@ -83,6 +84,11 @@ def make_harness(E, cmd, j, K, st, inp, policy=None, memory_limit=None, extra_as
             for c in extra_assume:
                 E.assume(c)
         w = World(E, st, policy, memory_limit, clock_mode)
+        if not getattr(st, 'free_extras', False):
+            # fields this harness does not know by name start at the value the crate's constructor gives them (single steps);
+            # the history checks thread them through their steps instead
+            for key, var in st.extra.items():
+                E.assume(var == st.extra_init[key])
         E.panic_out = lambda: (w, None, post_state(w, K))
         key = KeyTok(j)
         kc = E.alloc(key)
